@@ -16,8 +16,12 @@ RULE = (
     "Recipe (all four classes, attributes, descriptors crossing prospective "
     "cuts, placeholders, unspecified parity, roles, changes) x subset S of "
     "the atoms passed as list, tuple, set, frozenset, dict_keys, one-shot "
-    "iterator or generator expression x covers of the atom set by the "
-    "connected components, by disjoint pieces and by overlapping pieces. "
+    "iterator or generator expression (sequence forms may repeat an atom, "
+    "also so that len(S) equals the number of atoms) x covers of the atom "
+    "set by the connected components, by disjoint pieces and by overlapping "
+    "pieces, the pieces cut from one graph or from two graphs over the same "
+    "atoms that differ by validity-preserving mutations (other descriptors, "
+    "elements, bonds). "
     "Oracle: snapshot(g.subgraph(S)) == model.subgraph(S) exactly (atoms "
     "with attributes, induced bonds with attributes, precisely the "
     "descriptors and changes whose non-placeholder atoms all lie in S), g "
@@ -26,7 +30,8 @@ RULE = (
     "(non-empty, disjoint, covering, connected, maximal); "
     "Cls.compose(component subgraphs) == g as labelled graph; for arbitrary "
     "pieces atoms / bonds are the union with coherent neighbour sets and for "
-    "every attribute present in a later piece the later value wins. "
+    "every attribute present in a later piece the later value wins, and the "
+    "descriptor / change tables equal the later-wins union of the pieces'. "
     "Non-trivial: a descriptor or change straddles the cut, S is a one-shot "
     "iterator, or the graph has >= 2 components; distinct = SHA-1."
 )
@@ -77,8 +82,33 @@ def gen(data: bytes):
         if tp.chance(60):
             pieces[tp.below(npieces)].append(a)
     pieces = [sorted(set(p), key=atoms.index) for p in pieces if p]
-    return {"a": S.shuffled_recipe(tp, m), "subset": subset,
-            "form": tp.pick(FORMS), "pieces": pieces}
+    form = tp.pick(FORMS)
+    if subset and form in ("list", "tuple", "iter", "genexpr") \
+            and tp.chance(90):
+        # an iterable may name an atom more than once
+        extra = [tp.pick(subset) for _ in range(1 + tp.below(4))]
+        if tp.chance(128) and len(subset) < len(atoms):
+            extra = [tp.pick(subset)
+                     for _ in range(len(atoms) - len(subset))]
+        subset = tp.shuffle(subset + extra)
+    case = {"a": S.shuffled_recipe(tp, m), "subset": subset,
+            "form": form, "pieces": pieces}
+    if pieces and tp.chance(110):
+        # pieces cut from two different graphs over the same atoms: the
+        # later piece has to win where descriptors / attributes differ
+        b = m
+        for _ in range(1 + tp.below(3)):
+            b2, _k = S.mutate(tp, b)
+            if b2 is not None and set(b2.atoms) == set(m.atoms):
+                b = b2
+        if b is not m:
+            case["b"] = S.shuffled_recipe(tp, b)
+            case["pieces_src"] = [tp.pick(["a", "b"]) for _ in pieces]
+            if tp.chance(128):
+                # two whole graphs on top of each other, either order
+                case["pieces"] = [list(atoms), list(atoms)]
+                case["pieces_src"] = tp.pick([["a", "b"], ["b", "a"]])
+    return case
 
 
 def shrink(case):
@@ -87,12 +117,15 @@ def shrink(case):
         yield {**case, "a": cand,
                "subset": [x for x in case["subset"] if x in atoms],
                "pieces": [[x for x in p if x in atoms]
-                          for p in case["pieces"]]}
+                          for p in case["pieces"]]} if "b" not in case \
+            else {**case, "subset": []}
     sub = case["subset"]
     for i in range(len(sub)):
         yield {**case, "subset": sub[:i] + sub[i + 1:]}
     if case["form"] != "list":
         yield {**case, "form": "list"}
+    if "b" in case:
+        yield {k: v for k, v in case.items() if k not in ("b", "pieces_src")}
     ps = case["pieces"]
     for i in range(len(ps)):
         yield {**case, "pieces": ps[:i] + ps[i + 1:]}
@@ -112,8 +145,11 @@ def check_case(ctx, case):
     cls = ma.cls
     C = rc.classes()[cls]
     sub = case["subset"]
-    if not set(sub) <= set(ma.atoms) or len(set(sub)) != len(sub):
-        raise HarnessError("S must be a duplicate-free subset of the atoms")
+    if not set(sub) <= set(ma.atoms):
+        raise HarnessError("S must consist of atoms of the graph")
+    if len(set(sub)) != len(sub) and case["form"] not in (
+            "list", "tuple", "iter", "genexpr"):
+        raise HarnessError("duplicates need a sequence form")
     g = rc.build(case["a"])
     s0 = snapshot(g, f"C17/{cls}/source")
     form = case["form"]
@@ -121,7 +157,7 @@ def check_case(ctx, case):
     # ---- subgraph
     with guard(f"C17/subgraph/{fk}"):
         sg = g.subgraph(as_form(form, sub))
-    want = ma.subgraph(sub).snapshot()
+    want = ma.subgraph(list(dict.fromkeys(sub))).snapshot()
     try:
         ss = snapshot(sg, f"C17/subgraph/{fk}")
     except Violation as v:
@@ -165,14 +201,23 @@ def check_case(ctx, case):
     if pieces:
         if not all(set(p) <= set(ma.atoms) for p in pieces):
             raise HarnessError("pieces must be subsets")
+        src = case.get("pieces_src") or ["a"] * len(pieces)
+        models = {"a": ma}
+        graphs = {"a": g}
+        if "b" in case:
+            models["b"] = rc.require_valid(case["b"], strict=False)
+            if set(models["b"].atoms) != set(ma.atoms) or \
+                    models["b"].cls != cls or len(src) != len(pieces):
+                raise HarnessError("second source must share class and atoms")
+            graphs["b"] = rc.build(case["b"])
         with guard(f"C17/{cls}/compose-pieces"):
-            pg = [g.subgraph(list(p)) for p in pieces]
+            pg = [graphs[s_].subgraph(list(p)) for s_, p in zip(src, pieces)]
             comp = C.compose(pg)
         try:
             sc = snapshot(comp, "C17/compose-pieces")
         except Violation as v:
             raise Violation(v.sig, f"compose of pieces {pieces}: {v.msg}")
-        pm = [ma.subgraph(p) for p in pieces]
+        pm = [models[s_].subgraph(p) for s_, p in zip(src, pieces)]
         wantm = Model.compose(cls, pm)
         ws = wantm.snapshot()
         # structure: union of atoms and bonds
@@ -208,6 +253,12 @@ def run(ctx):
         labs = rc.features(case["a"]) + [f"form:{case['form']}"]
         if straddles(ma, sub):
             labs.append("straddling-descriptor")
+        if len(set(sub)) != len(sub):
+            labs.append("subset-with-duplicates")
+            if len(sub) == len(ma.atoms):
+                labs.append("duplicates-as-long-as-the-graph")
+        if "b" in case and len(set(case["pieces_src"])) == 2:
+            labs.append("pieces-from-two-graphs")
         if len(ma.components()) >= 2:
             labs.append("multi-component")
         ctx.note(case, nt, labs)
